@@ -1381,4 +1381,9 @@ mod tests {
 
         block.encode_to_vec()
     }
+
+    #[cfg(lumina_verif)]
+    mod verif_native {
+        include!(concat!(env!("LUMINA_VERIF_DIR"), "/native/node/daser.rs"));
+    }
 }
